@@ -25,11 +25,14 @@ inductive IEv where
   | enterInterface (name : String)
   | enterCtor (name : String) (pos : IP)
   | exitCtor
-  | enterMethod (name ret : String) (firstAnno : Option Anno) (mods : List String) (pos : IP)
+  /-- `annos`: the annotations among the modifiers of the declaration (all of them, in source order); `mods`: the other modifiers -/
+  | enterMethod (name ret : String) (annos : List Anno) (mods : List String) (pos : IP)
   | exitMethod
-  | interfaceMethod (name ret : String) (firstAnno : Option Anno) (pos : IP)
+  /-- an interface method: the modifiers before the member and the ones from `default` on, in source order -/
+  | interfaceMethod (name ret : String) (annos : List Anno) (mods : List String) (pos : IP)
   | exitInterfaceMethod
-  | returnExpr (text : String)
+  /-- the expression of a `return` statement: does it contain a null literal token? -/
+  | returnExpr (hasNull : Bool)
   | exitType
   deriving Repr
 
@@ -69,16 +72,16 @@ def onEv (st : ISt) : IEv → ISt
   | .enterCtor name pos =>
     { st with cur := { name := name, ret := "", override := st.isOverride, annos := st.cur.annos, isConstructor := true, pos := posOf pos } }
   | .exitCtor => { st with node := { st.node with fns := st.node.fns ++ [st.cur] } }
-  | .enterMethod name ret firstAnno mods pos =>
-    let annos := st.cur.annos ++ (match firstAnno with | some a => [a] | none => [])
+  | .enterMethod name ret declared mods pos =>
+    let annos := st.cur.annos ++ declared
     { st with hasEnterClass := true, isOverride := false,
               cur := { name := name, ret := ret, override := st.isOverride, annos := annos, pos := posOf pos, modifiers := mods } }
   | .exitMethod => { st with node := { st.node with fns := st.node.fns ++ [st.cur] }, cur := {} }
-  | .interfaceMethod name ret firstAnno pos =>
-    let annos := st.cur.annos ++ (match firstAnno with | some a => [a] | none => [])
-    { st with cur := { name := name, ret := ret, override := st.isOverride, annos := annos, pos := posOf pos } }
+  | .interfaceMethod name ret declared mods pos =>
+    let annos := st.cur.annos ++ declared
+    { st with cur := { name := name, ret := ret, override := st.isOverride, annos := annos, pos := posOf pos, modifiers := mods } }
   | .exitInterfaceMethod => { st with node := { st.node with fns := st.node.fns ++ [st.cur] }, cur := {} }
-  | .returnExpr text => { st with cur := { st.cur with isReturnNull := containsSub text "null" } }
+  | .returnExpr hasNull => { st with cur := { st.cur with isReturnNull := st.cur.isReturnNull || hasNull } }
   | .exitType => pushNode st
 
 def runFile (st : ISt) (evs : List IEv) : ISt := evs.foldl onEv (newListener st)
